@@ -218,10 +218,17 @@ impl RoutingThread {
                     .await;
             }
             Message::KeyListUpdate(key_list) => {
-                self.network
+                if let Err(error) = self
+                    .network
                     .handle_received_key_list(peer_index, key_list)
                     .await
-                    .unwrap();
+                {
+                    // unknown peer or rate limit exceeded : the update is dropped
+                    debug!(
+                        "key list update from peer : {:?} not applied : {:?}",
+                        peer_index, error
+                    );
+                }
             }
             Message::Block(_) => {
                 // blocks are fetched, never pushed. a peer sending one is ignored
